@@ -14,6 +14,7 @@ type Blob struct {
 	typ  interface{}
 	str  StrVal
 	raw  string // concrete rendering when known (e.g. JSON of an int)
+	cell *Obj   // "sig": the mutable recovery byte (index 64) of this copy of the signature
 }
 
 func (m *Machine) blobSlice(b *Blob) Value {
